@@ -18,7 +18,8 @@ Not decided: the full enumeration equality as behaviour (follows by induction ov
 facts above together with C18's lowest-member/removal facts; argued)."""
 from .. import sym, lift, setalg, geom
 from . import zob
-from .common import loc, iter_places, place_fields
+from .common import loc, iter_places, place_fields, enum_values, in_set3
+from .c04 import opt_test
 
 PM = "cozy_chess::board::movegen::piece_moves::"
 PIECE = "cozy_chess_types::piece::Piece"
@@ -47,10 +48,22 @@ def run(ctx):
     where = loc(body)
     paths = sym.SymExec(f, body).run()
     ctx.saw("%s: %d paths" % (body.key, len(paths)))
-    T = fld("moves", "to")
-    Fr = fld("moves", "from")
-    P = fld("moves", "piece")
-    C = fld("promotion")
+    # private fields of the iterator by role: the batch (of type PieceMoves) and the promotion counter (an integer)
+    it_adt = f.adts.get(PM + "PieceMovesIter")
+    if it_adt is None:
+        from ..facts import MissingAnchor
+        raise MissingAnchor(PM + "PieceMovesIter")
+    BATCH = [fl["name"] for fl in it_adt["variants"][0]["fields"] if fl["ty"].endswith("PieceMoves")]
+    CNT = [fl["name"] for fl in it_adt["variants"][0]["fields"] if fl["ty"] in ("u8", "u16", "u32", "usize", "u64")]
+    if len(BATCH) != 1 or len(CNT) != 1 or len(it_adt["variants"][0]["fields"]) != 2:
+        from ..facts import MissingAnchor
+        raise MissingAnchor("PieceMovesIter is no longer (batch: PieceMoves, counter: integer)")
+    BATCH, CNT = BATCH[0], CNT[0]
+    CNT_TY = [fl["ty"] for fl in it_adt["variants"][0]["fields"] if fl["name"] == CNT][0]
+    T = fld(BATCH, "to")
+    Fr = fld(BATCH, "from")
+    P = fld(BATCH, "piece")
+    C = fld(CNT)
     first = ("call", "cozy_chess_types::bitboard::BitBoard::next_square", (T,))
     S = zob.payload(first)
     removed = [("xor", T, ("bbof", S)), ("and", T, ("not", ("bbof", S)))]
@@ -72,14 +85,14 @@ def run(ctx):
             ctx.fail("next:state-unreadable", "cannot read how next() changes the iterator", where)
             continue
         newT = T
-        if "moves" in ch:
-            mv = ch["moves"]
+        if BATCH in ch:
+            mv = ch[BATCH]
             newT = sym.Ops(f).field(mv, "to")
             rest = mv
             # only `to` may change inside moves
-            okm = mv[0] == "with" and mv[1] == fld("moves") and mv[2] == ("f", "to")
+            okm = mv[0] == "with" and mv[1] == fld(BATCH) and mv[2] == ("f", "to")
             ctx.check(okm, "next:only-to-changes", "next() changes batch fields other than the destination set", where)
-        newC = ch.get("promotion", C)
+        newC = ch.get(CNT, C)
         # facts decided on this path
         some = None
         pawn = None
@@ -188,8 +201,8 @@ def run(ctx):
               sample={"writers": sorted(w.rsplit("::", 1)[-1] for w in writers)})
     ib = f.need(into)
     ips = sym.SymExec(f, ib).run()
-    ok = len(ips) == 1 and ips[0].ret[0] == "agg" and dict(ips[0].ret[4]).get("promotion") == ("int", 0, "u8") and \
-        dict(ips[0].ret[4]).get("moves") == ("param", "self")
+    ok = len(ips) == 1 and ips[0].ret[0] == "agg" and dict(ips[0].ret[4]).get(CNT) == ("int", 0, CNT_TY) and \
+        dict(ips[0].ret[4]).get(BATCH) == ("param", "self")
     ctx.check(ok, "into_iter:establishes", "into_iter does not start with (the batch, counter 0): %s" % sym.show(ips[0].ret)[:120], loc(ib))
 
     # ------------------------------------------------------------------ len / is_empty / remaining
@@ -199,43 +212,56 @@ def run(ctx):
     To = fld("to")
     Pc = fld("piece")
     seen = {}
+    Mexpr = ("bbconst", M)
+    regions = {"promo": ("and", To, Mexpr), "plain": ("and", To, ("not", Mexpr))}
+
+    def linear(e):
+        """e as {region: coefficient} over |to ∩ M| and |to \\ M| (None when it is not such a combination)"""
+        while e[0] == "cast":
+            e = e[2]
+        if e[0] == "int":
+            return {"promo": 0, "plain": 0} if e[1] == 0 else None
+        if e[0] == "len":
+            out = {}
+            for nm, reg in regions.items():
+                if setalg.subset(reg, e[1]):
+                    out[nm] = 1
+                elif setalg.equivalent(("and", reg, e[1]), ("bbconst", 0)):
+                    out[nm] = 0
+                else:
+                    return None
+            # nothing outside `to` may be counted
+            if not setalg.subset(e[1], To):
+                return None
+            return out
+        if e[0] == "bin" and e[1] == "Add":
+            a_, b_ = linear(e[2]), linear(e[3])
+            if a_ is None or b_ is None:
+                return None
+            return {k_: a_[k_] + b_[k_] for k_ in a_}
+        if e[0] == "bin" and e[1] == "Mul":
+            for x_, y_ in ((e[2], e[3]), (e[3], e[2])):
+                if x_[0] == "int":
+                    l_ = linear(y_)
+                    return None if l_ is None else {k_: x_[1] * v_ for k_, v_ in l_.items()}
+        return None
     for p in lps:
-        pawn = None
-        for c in p.conds:
-            e = c[0]
-            if e[0] == "bin" and e[1] in ("Eq", "Ne") and set((e[2], e[3])) == {PAWN, Pc} and isinstance(c[1], int):
-                pawn = (e[1] == "Eq") == bool(c[1])
-        r = p.ret
-        while r[0] == "cast":
-            r = r[2]
+        pv = enum_values(f, [(c[0], c[1]) for c in p.conds], Pc, PIECE)
+        pawn = in_set3(pv, {0}) if len(pv) < 6 else None
+        lin = linear(p.ret) if p.ret is not None else None
         if pawn is None:
+            # no decision on the piece: only right if the count is the plain one and there is no pawn (never the case)
             ctx.fail("len:pawn-undecided", "len() answers without deciding whether the piece is a pawn", loc(lb))
         elif not pawn:
             seen["other"] = True
-            ctx.check(r == ("len", To), "len:non-pawn", "len() of a non-pawn batch is not |to|: %s" % sym.show(r)[:100], loc(lb))
+            ctx.check(lin == {"promo": 1, "plain": 1}, "len:non-pawn", "len() of a non-pawn batch is not |to|: %s" % sym.show(p.ret)[:100], loc(lb))
         else:
             seen["pawn"] = True
-            terms = flat_add(r)
-            ok = len(terms) == 2
-            mult = None
-            plain = None
+            ok = lin is not None and lin["plain"] == 1
+            ctx.check(ok, "len:pawn-formula", "len() of a pawn batch is not k*|to ∩ M| + |to \\\\ M| with M = 1st ∪ 8th rank: %s" % sym.show(p.ret)[:200], loc(lb),
+                      sample={"len(pawn)": sym.show(p.ret)[:120]})
             if ok:
-                for t_ in terms:
-                    if t_[0] == "bin" and t_[1] == "Mul":
-                        a, b = t_[2], t_[3]
-                        if a[0] == "int":
-                            mult = (a[1], b)
-                        elif b[0] == "int":
-                            mult = (b[1], a)
-                    else:
-                        plain = t_
-            Mexpr = ("bbconst", M)
-            ok = ok and mult is not None and plain is not None and mult[1][0] == "len" and plain[0] == "len" and \
-                setalg.equivalent(mult[1][1], ("and", To, Mexpr)) and setalg.equivalent(plain[1], ("and", To, ("not", Mexpr)))
-            ctx.check(ok, "len:pawn-formula", "len() of a pawn batch is not k*|to ∩ M| + |to \\\\ M| with M = 1st ∪ 8th rank: %s" % sym.show(r)[:200], loc(lb),
-                      sample={"len(pawn)": sym.show(r)[:120]})
-            if mult:
-                ctx.check(mult[0] == n_pieces == 4, "len:multiplier", "promotion destinations count %s times in len() but next() produces %d promotion pieces" % (mult[0], n_pieces), loc(lb))
+                ctx.check(lin["promo"] == n_pieces == 4, "len:multiplier", "promotion destinations count %s times in len() but next() produces %d promotion pieces" % (lin["promo"], n_pieces), loc(lb))
     ctx.check(seen.get("pawn") and seen.get("other"), "len:cases", "len() lacks a pawn or a non-pawn case", loc(lb))
     eb = f.need(PM + "PieceMoves::is_empty")
     eps = sym.SymExec(f, eb).run()
@@ -289,8 +315,31 @@ def run(ctx):
                 feq = bool(v)
             elif e == ("has", To, mto):
                 hto = bool(v)
+            elif e[0] == "bin" and e[1] in ("Eq", "Ne") and (promo in (e[2], e[3]) or ("discr", promo) in (e[2], e[3]) or zob.payload(promo) in (e[2], e[3])
+                                                            or ("discr", zob.payload(promo)) in (e[2], e[3])):
+                pass        # read through enum_values / opt_test below
             else:
                 ctx.fail("has:unknown-decision", "has() branches on an unexpected condition: %s" % sym.show(e)[:160], loc(hb))
+        lc = [(c[0], c[1]) for c in p.conds]
+        RANKT = "cozy_chess_types::rank::Rank"
+        if pawn is None:
+            pv = enum_values(f, lc, Pc, PIECE)
+            pawn = in_set3(pv, {0}) if len(pv) < 6 else None
+        if rank is None:
+            rv = enum_values(f, lc, ("call", "cozy_chess_types::square::Square::rank", (mto,)), RANKT)
+            rank = in_set3(rv, {0, 7}) if len(rv) < 8 else None
+        if st is None:
+            sv = enum_values(f, lc, promo, "core::option::Option")      # discr tests of the Option
+            for c_ in p.conds:
+                o_ = opt_test(c_[0], c_[1], promo)
+                if o_:
+                    st = o_
+        if st == "Some" and pk is None:
+            kv = enum_values(f, lc, zob.payload(promo), PIECE)
+            if kv <= {1, 2, 3, 4}:
+                pk = "Knight"
+            elif kv <= {0, 5}:
+                pk = "Pawn"
         promoting = and3(pawn, rank)
         if st is None or promoting is None:
             pm_ok = None
@@ -299,7 +348,9 @@ def run(ctx):
         if st == "None":
             pm_ok = None if promoting is None else (not promoting)
         elif st == "Some":
-            if pk in ("Knight", "Bishop", "Rook", "Queen"):
+            if promoting is False:
+                pm_ok = False          # a promotion piece on a move that does not promote never matches, whatever the piece
+            elif pk in ("Knight", "Bishop", "Rook", "Queen"):
                 pm_ok = promoting
             elif pk in ("Pawn", "King") or {"Knight", "Bishop", "Rook", "Queen"} <= excl:
                 pm_ok = False
